@@ -3,7 +3,7 @@ From PV Require Import Proc.Spec Proc.Lib.
 
 (* object [x] was created for incarnation [i] *)
 Definition obj_ok (w : world) (x : pobj) (i : Z) : Prop :=
-  In (i, opid x, ostart x) (hist w) /\
+  (exists s, ostart x = Some s /\ In (i, opid x, s) (hist w)) /\
   (ogone x = true \/ oreused x = true -> alive w i = false) /\
   (ohash x = None \/ ohash x = Some (ident x)) /\
   (oreused x = true -> ogone x = true) /\
@@ -34,41 +34,43 @@ Proof. reflexivity. Qed.
 
 (* the incarnation is in the table exactly when /proc/<pid>/stat shows the object's start time *)
 Lemma alive_char w x i : Inv w -> obj_ok w x i ->
-  (alive w i = true <-> exists k, lookup (table w) (opid x) = Some k /\ kstart k = ostart x).
+  (alive w i = true <-> exists k, lookup (table w) (opid x) = Some k /\ ostart x = Some (kstart k)).
 Proof.
-  intros I [Hh _]. split.
+  intros I [(s & Es0 & Hh) _]. split.
   - intros A. apply alive_true in A as [k [Hk Ei]]. exists k.
     pose proof (inv_tab _ I _ Hk) as Hk'. rewrite Ei in Hk'.
     destruct (inv_fun _ I _ _ _ _ _ Hk' Hh) as [Ep Es].
-    split; auto. rewrite <- Ep. apply lookup_nodup; auto. apply (inv_nodup _ I).
+    split; [|congruence]. rewrite <- Ep. apply lookup_nodup; auto. apply (inv_nodup _ I).
   - intros [k [L Es]]. apply lookup_some in L as [Hk Ep].
-    pose proof (inv_tab _ I _ Hk) as Hk'. rewrite Ep, Es in Hk'.
+    pose proof (inv_tab _ I _ Hk) as Hk'. rewrite Ep in Hk'.
+    assert (s = kstart k) by congruence. subst s.
     apply alive_true. exists k. split; auto. eapply (inv_inj _ I); eauto.
 Qed.
 
 Lemma alive_owner w x i : Inv w -> obj_ok w x i -> alive w i = true -> owner w (opid x) = Some i.
 Proof.
-  intros I O A. pose proof O as [Hh _].
+  intros I O A. pose proof O as [(s & Es0 & Hh) _].
   apply (alive_char w x i I O) in A as [k [L Es]]. rewrite owner_lookup, L.
-  apply lookup_some in L as [Hk Ep]. pose proof (inv_tab _ I _ Hk) as Hk'. rewrite Ep, Es in Hk'.
+  apply lookup_some in L as [Hk Ep]. pose proof (inv_tab _ I _ Hk) as Hk'. rewrite Ep in Hk'.
+  assert (s = kstart k) by congruence. subst s.
   f_equal. eapply (inv_inj _ I); eauto.
 Qed.
 
 (* == compares incarnations *)
 Lemma obj_eq_inc w x y i j : Inv w -> obj_ok w x i -> obj_ok w y j -> obj_eq x y = (i =? j).
 Proof.
-  intros I [Hx _] [Hy _]. unfold obj_eq.
+  intros I [(s & Esx & Hx) _] [(t & Esy & Hy) _]. unfold obj_eq. rewrite Esx, Esy. cbn [opt_eqb].
   destruct (Z.eqb_spec i j) as [E|E].
   - subst j. destruct (inv_fun _ I _ _ _ _ _ Hx Hy) as [-> ->]. rewrite !Z.eqb_refl. reflexivity.
   - destruct (Z.eqb_spec (opid x) (opid y)) as [Ep|Ep]; [|reflexivity].
-    destruct (Z.eqb_spec (ostart x) (ostart y)) as [Es|Es]; [|reflexivity].
+    destruct (Z.eqb_spec s t) as [Es|Es]; [|reflexivity].
     exfalso. apply E. rewrite Ep, Es in Hx. eapply (inv_inj _ I); eauto.
 Qed.
 
 (* ---------------------------------------------------------------- Process(pid) *)
 Lemma new_obj_val w p y : new_obj (view_of w) p = Val y ->
   0 <= p < PID_MAX /\ exists k, lookup (table w) p = Some k /\
-  y = {| opid := p; ostart := kstart k; ogone := false; oreused := false; octime := None; ohash := None |}.
+  y = {| opid := p; ostart := Some (kstart k); ogone := false; oreused := false; octime := None; ohash := None |}.
 Proof.
   unfold new_obj. destruct (Z.ltb_spec p 0); [discriminate|].
   destruct (Z.leb_spec PID_MAX p); [discriminate|].
@@ -85,14 +87,14 @@ Proof.
   split; [|split; [reflexivity|apply alive_true; eauto]].
   unfold obj_ok; cbn [opid ostart ogone oreused ohash].
   split; [|split; [|split; [|split]]]; auto.
-  - rewrite <- Ep. apply (inv_tab _ I); auto.
+  - exists (kstart k). split; auto. rewrite <- Ep. apply (inv_tab _ I); auto.
   - intros [D|D]; discriminate.
 Qed.
 
 Lemma new_obj_self w x i : Inv w -> obj_ok w x i ->
   new_obj (view_of w) (opid x) =
   match lookup (table w) (opid x) with
-  | Some k => Val {| opid := opid x; ostart := kstart k; ogone := false; oreused := false; octime := None; ohash := None |}
+  | Some k => Val {| opid := opid x; ostart := Some (kstart k); ogone := false; oreused := false; octime := None; ohash := None |}
   | None => Exc NoSuchProcess
   end.
 Proof.
@@ -122,12 +124,14 @@ Proof.
     assert (Gx : ogone x = true) by (apply orb_true_iff in G as [G|G]; auto).
     exists x, []. rewrite A. unfold obj_step.
     splits; try reflexivity; auto; try discriminate; try (intros; congruence).
-  - apply orb_false_iff in G as [G1 G2].
+  - apply orb_false_iff in G as [G1 G2]. pose proof Hh as (s & Es0 & Hh').
     rewrite (new_obj_self w x i I O). rewrite owner_lookup.
     destruct (lookup (table w) (opid x)) as [k|] eqn:L.
-    + unfold obj_eq; cbn [opid ostart]. rewrite Z.eqb_refl. cbn [andb].
-      destruct (Z.eqb_spec (ostart x) (kstart k)) as [Es|Es].
-      * assert (A : alive w i = true) by (apply (alive_char w x i I O); eauto).
+    + cbn [ostart].
+      unfold obj_eq; cbn [opid ostart]. rewrite Es0, Z.eqb_refl. cbn [andb opt_eqb].
+      destruct (Z.eqb_spec s (kstart k)) as [Es|Es].
+      * assert (A : alive w i = true).
+        { apply (alive_char w x i I O). exists k. split; auto. congruence. }
         exists (with_reused false x), []. rewrite A.
         assert (OK : obj_ok w (with_reused false x) i).
         { unfold obj_ok; cbn [with_reused opid ostart ogone oreused ohash ident].
